@@ -458,7 +458,41 @@ def _region(n):
                 return (d + "Split" + ("L" if n[2] == "0" else "R"), c, _region(r))
         return ("?", nshow(n))
     if k == "phi":
-        rs = [_region(x) for x in n[1]]
+        leaves = []
+
+        def flat(x):
+            if x[0] == "phi":
+                for y in x[1]:
+                    flat(y)
+            elif x not in leaves:
+                leaves.append(x)
+        flat(n)
+        rs = []
+        for x in leaves:
+            r = _region(x)
+            if r[0] == "Phi":
+                for y in r[1]:
+                    if y not in rs:
+                        rs.append(y)
+            elif r not in rs:
+                rs.append(r)
+        # reduce: {X, Split(c, X)} -> SplitOpt(c, X) ("that half if c occurs, else all of X"), repeatedly; an optional split
+        # already contains "or all of X"
+        changed = True
+        while changed and len(rs) > 1:
+            changed = False
+            for r in list(rs):
+                if r[0] in ("RSplitL", "RSplitR", "SplitL", "SplitR") and r[2] in rs:
+                    a = r[2]
+                    rs = [x for x in rs if x != r and x != a] + [(r[0] + "Opt", r[1], a)]
+                    changed = True
+                    break
+                if r[0].endswith("Opt") and len(r) == 3 and r[2] in rs:
+                    rs = [x for x in rs if x != r[2]]
+                    changed = True
+                    break
+        if len(rs) == 1:
+            return rs[0]
         if len(rs) == 2:
             for a, b in ((rs[0], rs[1]), (rs[1], rs[0])):
                 if b[0] in ("RSplitL", "RSplitR", "SplitL", "SplitR") and b[2] == a:
